@@ -1271,6 +1271,13 @@ def build_operator_operand_fixup(capture_error_state):
         if right_op in ERROR_CODES:
             return right_op
 
+        # a numpy scalar (SLOPE, FORECAST ...) is the python value it holds,
+        # with numpy itself x / 0 is inf and a comparison is not a bool
+        if isinstance(left_op, np.generic):
+            left_op = left_op.item()
+        if isinstance(right_op, np.generic):
+            right_op = right_op.item()
+
         if op in COMPARISION_OPS:
             if left_op in (None, EMPTY):
                 left_op = type_cmp_value(right_op)[1]
